@@ -967,16 +967,20 @@ dns_msg_sequence_of_labels_get_name_len(dns_hdr_p hdr, size_t msg_size,
 		return (EBADMSG);
 
 	cur_pos = (((uint8_t*)hdr) + offset);
-	max_pos = (cur_pos + msg_size); // XXX check this!
+	max_pos = (((uint8_t*)hdr) + msg_size);
 	name_len = 0;
 	for (jumps = 0; jumps < DNS_MAX_NAME_CYCLES;) {// перебираем все куски текста
+		if (cur_pos >= max_pos)
+			return (EBADMSG); /* Out of buf range. */
 		label = (*((uint8_t*)cur_pos));
 		if ((label & SEQ_LABEL_CTRL_MASK) == SEQ_LABEL_CTRL_COMPRESSED) {
 			// SEQ_LABEL_CTRL_COMPRESSED означает что указанно смещение а не длинна
+			if ((cur_pos + sizeof(uint16_t)) > max_pos)
+				return (EBADMSG); /* Out of buf range. */
 			memcpy(&tmu16, cur_pos, sizeof(uint16_t));
 			offset = (ntohs(tmu16) & SEQ_LABEL_COMPRESSED_DATA_MASK);
 			new_pos = (((uint8_t*)hdr) + offset);
-			if (msg_size < offset || sizeof(dns_hdr_t) > offset ||
+			if (msg_size <= offset || sizeof(dns_hdr_t) > offset ||
 			    cur_pos == new_pos)
 				return (EBADMSG);// bad pointer
 			// pointer OK: in buf range, not pointed to self
@@ -1020,16 +1024,20 @@ dns_msg_sequence_of_labels2name(dns_hdr_p hdr, size_t msg_size, size_t offset,
 		return (EBADMSG);
 
 	cur_pos = (((uint8_t*)hdr) + offset);
-	max_pos = (cur_pos + msg_size); // XXX check this!
+	max_pos = (((uint8_t*)hdr) + msg_size);
 	name_len = 0;
 	for (jumps = 0; jumps < DNS_MAX_NAME_CYCLES;) {// перебираем все куски текста
+		if (cur_pos >= max_pos)
+			return (EBADMSG); /* Out of buf range. */
 		label = (*((uint8_t*)cur_pos));
 		if ((label & SEQ_LABEL_CTRL_MASK) == SEQ_LABEL_CTRL_COMPRESSED) {
 			// SEQ_LABEL_CTRL_COMPRESSED означает что указанно смещение а не длинна
+			if ((cur_pos + sizeof(uint16_t)) > max_pos)
+				return (EBADMSG); /* Out of buf range. */
 			memcpy(&tmu16, cur_pos, sizeof(uint16_t));
 			offset = (ntohs(tmu16) & SEQ_LABEL_COMPRESSED_DATA_MASK);
 			new_pos = (((uint8_t*)hdr) + offset);
-			if (msg_size < offset || sizeof(dns_hdr_t) > offset ||
+			if (msg_size <= offset || sizeof(dns_hdr_t) > offset ||
 			    cur_pos == new_pos)
 				return (EBADMSG);// bad pointer
 			// pointer OK: in buf range, not pointed to self
